@@ -1,4 +1,5 @@
 import ZanVerif.Route.Partition
+import ZanVerif.Props.C11Plset
 import Driver.Util
 /-
   Driver of protocol `srvmerge` (the server's merge layer on a real multi-partition server).
@@ -40,6 +41,17 @@ def step (P : Nat) (line : String) : Nat × String :=
         | none => (P, "bad-op")
       | none => (P, "bad-op")
     else (P, "bad-op")
+  | "plcount" :: hexargs =>
+    -- how many replies ONE PLSET request gets: the executable model the C11Plset theorems are about, with the
+    -- client's partition function of the C15 model (keys are valid keys of hosted partitions: no dispatch error)
+    match hexargs.mapM unhex with
+    | some args =>
+      let part : Bytes → Nat := fun raw =>
+        match extractNamespace raw with
+        | some (_, pk) => (sdkPartition pk (P : Int)).toNat
+        | none => 0
+      (P, s!"replies={Z.Props.C11Plset.replies part P false args}")
+    | none => (P, "bad-op")
   | _ => (P, "bad-op")
 
 end Drv.SrvMerge
